@@ -194,6 +194,16 @@ def step (s : St) (line : String) : St × String :=
         let t := ModeTerm.run s.t itoks
         ({ s with w := { w with wire := [] }, t := t }, s!"{c.1}\t{c.2}\t{restoredVerdict s.t0 t}")
       | none => (s, bad3)
+  | ["closeby", "signalframe"] =>
+      -- forced schedule "kill signal mid-frame" (F404/F410): the Close run by the kill arm is held at the end of
+      -- its Suspend while the main goroutine renders one more frame; judged by the mode terminal only
+      if impl = "hang" then (s, "-\thang\tFAIL Close triggered from the input goroutine never completes") else
+      match lex impl with
+      | some itoks =>
+        let t := ModeTerm.run s.t itoks
+        let v := if restored s.t0 t then "ok" else "FAIL not restored after a kill signal that arrived mid-frame (the application's frame follows the restore sequence):" ++ describe s.t0 t
+        ({ s with t := t }, s!"-\t-\t{v}")
+      | none => (s, bad3)
   | ["closeby", how, cnv, clv, row, col, sty] =>
       -- Close triggered on the input goroutine: model = the statement list of the kill-signal arm / of the
       -- deferred recover handler, as regenerated from openTty (`Props.C04.signal_path_is_close`, `panic_path_is_close`)
